@@ -1270,6 +1270,20 @@ def run(ctx):
     if not viol:
         s3, smp3 = live_level(ctx, rng, viol)
     known_hit = []
+    if viol and all(getattr(v, "no_input", False) for v in viol):
+        # a correspondence broke without a failing input of its own: search the directed scenarios (each is a model-free
+        # monitor on the real tool with a concrete input) for one on which the property now fails
+        found = []
+        for scen in (glued_record_scenario, malformed_done_scenario, killed_script_scenario, fragments_scenario, two_spellings_scenario, non_utf8_scenario, split_utf8_scenario):
+            try:
+                scen(ctx, found)
+            except Exception:
+                pass
+            if found:
+                break
+        if found:
+            found[0].what = found[0].what + " [found after: " + viol[0].what[:120] + "]"
+            viol[:] = found[:1]
     if not viol:
         inband_scenario(ctx, viol, known_hit)
     s4 = {}
